@@ -139,15 +139,15 @@ Proof.
   rewrite opt_translate_step by reflexivity. cbn [set_translate].
   (* with *)
   assert (HA: msgs_of_items of_tag_into
-                (map (fun x => match x with AM m' => TComp (fields_of true m') | AS z => TStr z end) w)
+                (map (fun x => match x with AM m' => TComp (fields_of (is_nil (m_translate m')) m') | AS z => TStr z end) w)
               = Some (map norm_arg_msg w)).
   { unfold msgs_of_items. rewrite map_map. apply all_some_map.
     eapply Forall_impl; [|exact Hw]. intros [m'|z] Hx; cbn [argP] in Hx.
-    - apply (Hx true).
+    - apply (Hx (is_nil (m_translate m'))).
     - reflexivity. }
-  assert (HE: msgs_of_items of_tag_into (map (fun m' => TComp (fields_of true m')) e) = Some (map norm e)).
+  assert (HE: msgs_of_items of_tag_into (map (fun m' => TComp (fields_of (is_nil (m_translate m')) m')) e) = Some (map norm e)).
   { unfold msgs_of_items. rewrite map_map. apply all_some_map.
-    eapply Forall_impl; [|exact He]. intros m' Hx. apply (Hx true). }
+    eapply Forall_impl; [|exact He]. intros m' Hx. apply (Hx (is_nil (m_translate m'))). }
   destruct w as [|x0 w'].
   - cbn [app map].
     destruct e as [|e0 e'].
